@@ -17,7 +17,9 @@ RULE = ("the C05 generator (trees with ties, optional WHERE, 0..3 order keys, bf
         "row count == min(N, M); without ORDER BY the rows are a sub-multiset of the unlimited rows; with ORDER BY the "
         "rows are sorted and their typed key sequence equals the first N key tuples of the sorted unlimited result "
         "(either resolution of a tie at the cut is accepted); limit 0 / absent limit give exactly the unlimited "
-        "multiset. Non-trivial sub-case = (pair, N) with 1 <= N < M and, when ordered, a tie straddling position N or "
+        "multiset. The same search is repeated with a second select list without the path column (values reached through "
+        "function arguments, arithmetic, constants next to columns): its row counts for no limit, limit 0 and limit 1..min(M,6)+1 "
+        "must be the same M / min(N, M). Non-trivial sub-case = (pair, N) with 1 <= N < M and, when ordered, a tie straddling position N or "
         "an archive member among the expected top N.")
 ASSUMPTIONS = [
     "which rows are returned without ORDER BY is not asserted (any N of them)",
@@ -52,6 +54,8 @@ def strategy_(draw, tier):
         case["where"] = draw(st.sampled_from(["name like '%.txt'", "name like '%.log'", "name like '%.rs'", "size >= 100",
                                               "size < 100", "name like '[%' and size > 5", "ext = 'txt' or name like '%.rs'"]))
     case["archives"] = arch
+    # a second select list without the path column: the number of rows must not depend on what is selected
+    case["bare"] = draw(st.sampled_from(BARE_LISTS))
     tops = [n for n, nd in spec.items() if nd["t"] == "d" and c05.c02 and n.replace(".", "").replace("_", "").isalnum()
             and not n[0].isdigit() and n not in ("size", "bin", "mode", "name")]
     case["roots"] = ["."]
@@ -59,6 +63,12 @@ def strategy_(draw, tier):
         case["roots"] = tops[:2]
     # line_count / where atoms only meaningful for on-disk entries; fine with archives too (own output is the oracle)
     return case
+
+
+BARE_LISTS = [["name"], ["concat('f:', name)"], ["concat_ws('-', name, size)"], ["upper(name)"], ["size + 1"], ["1 + size"],
+              ["coalesce(ext, name)"], ["length(name)", "concat('x', ext)"], ["format_size(size, '%.1')"], ["substr(name, 1, 2)"],
+              ["greatest(1, size)"], ["least(100, length(name))", "concat('<', name, '>')"], ["replace(name, 'a', 'b')"],
+              ["size"], ["ext"], ["is_dir"], ["concat(name, ext)"], ["power(2, length(ext))"]]
 
 
 def strategy(tier):
@@ -154,6 +164,29 @@ def check(case):
                         out.classes.append("archive-member-in-top-n")
             elif 1 <= n < m:
                 nt_keys.append("%s|%d" % (ck, n))
+        # the same search with another select list (no path column, values reached through function arguments)
+        bare = case.get("bare")
+        if bare:
+            sel2 = "select " + ", ".join(bare)
+            ref = None
+            order2 = "" if any(k.get("pos") for k in case["keys"]) else order   # positions refer to the first select list
+            for n in [None, 0] + list(range(1, min(m, 6) + 2)):
+                lim = "" if n is None else " limit %d" % n
+                q = sel2 + tail + order2 + lim + " into list"
+                rows = c05.run_rows(out, base, q, len(bare), "C06")
+                if rows is None:
+                    continue
+                expect_n = m if not n else min(n, m)
+                if len(rows) != expect_n:
+                    out.add("C06/count/depends-on-select-list/%s" % ("too-few" if len(rows) < expect_n else "too-many"),
+                            query=q, got=len(rows), want=expect_n, reference_query=sel + tail + order)
+                    break
+                if n is None:
+                    ref = collections.Counter(rows)
+                elif ref is not None and collections.Counter(rows) - ref:
+                    out.add("C06/not-a-submultiset/other-select-list", query=q)
+                    break
+            out.classes.append("second-select-list")
         out.classes += ["ordered" if case["keys"] else "unordered", "M=%s" % ("0" if m == 0 else "1-9" if m < 10 else "10-29" if m < 30 else "30+")]
         if case.get("archives"):
             out.classes.append("archives")
